@@ -86,7 +86,14 @@ func refDuration(s string) (sum *big.Int, ok bool) {
 
 func c08Parse(o *out, s string, tag string) {
 	o.count(tag)
-	d, err := influxql.ParseDuration(s)
+	var d time.Duration
+	var err error
+	if pn := safely(func() { d, err = influxql.ParseDuration(s) }); pn != nil {
+		o.checked()
+		o.addCase("(7 "+textSexp(s)+")", "(2)", s)
+		o.fail("", fmt.Sprintf("ParseDuration(%q) panics: %v", s, pn), map[string]interface{}{"op": "parse_duration", "text": s})
+		return
+	}
 	resp := "(1)"
 	if err == nil {
 		resp = fmt.Sprintf("(0 %d)", int64(d))
@@ -186,6 +193,31 @@ func c08InStatement(o *out, lit string) {
 			return int64(dl.Val), true
 		}},
 	}
+	// a sign in front of a duration literal: +d is d, -d is its negation
+	if derr == nil && int64(d) != math.MinInt64 {
+		for _, sg := range []struct {
+			sign string
+			mul  int64
+		}{{"+", 1}, {"-", -1}, {"+ ", 1}, {"- ", -1}} {
+			text := "SELECT mean(v) FROM m GROUP BY time(1h, " + sg.sign + lit + ")"
+			o.checked()
+			rp := map[string]interface{}{"op": "duration_in_statement", "text": text, "lit": lit}
+			st, _, pn := addParseStmtCase(o, text, nil)
+			if pn != nil || st == nil {
+				if pn != nil {
+					o.fail("", fmt.Sprintf("%q panics: %v", text, pn), rp)
+				}
+				continue
+			}
+			c, ok := st.(*influxql.SelectStatement).Dimensions[0].Expr.(*influxql.Call)
+			if !ok || len(c.Args) != 2 {
+				continue
+			}
+			if dl, ok := c.Args[1].(*influxql.DurationLiteral); !ok || int64(dl.Val) != sg.mul*int64(d) {
+				o.fail("", fmt.Sprintf("%q stores the offset %v, expected %d", text, c.Args[1], sg.mul*int64(d)), rp)
+			}
+		}
+	}
 	for _, t := range templates {
 		text := fmt.Sprintf(t.text, lit)
 		o.checked()
@@ -237,7 +269,9 @@ func propC08(o *out, r *rng, thorough bool) {
 	}
 	for _, w := range []string{"5124096h", "-5124096h", "106751d23h47m16s854ms775u807ns", "106751d23h47m16s854ms775u808ns", "9223372036854775807ns",
 		"9223372036854775808ns", "-9223372036854775807ns", "-9223372036854775808ns", "15250w1d23h47m16s854ms775u807ns", "15251w", "2562047h47m16s854ms775u807ns",
-		"", "-", "1", "s", "1x", "1n", "1nss", "1.5s", "1 s", "1s ", "+1s", "--1s", "1s-1s", "１s", "1µs", "1µ", "1us", "1mss", "1msm", "0s", "00000s", "0w0d", "1h1h", "9999999999999999999999s"} {
+		"", "-", "1", "s", "1x", "1n", "1nss", "1.5s", "1 s", "1s ", "+1s", "--1s", "1s-1s", "１s", "1µs", "1µ", "1us", "1mss", "1msm", "0s", "00000s", "0w0d", "1h1h", "9999999999999999999999s",
+		// leading zeros are decimal digits, not a base prefix; a bare m after the two-byte µ; digits only
+		"010m", "0100ms", "1m08s", "08s", "09h", "007d", "0x10s", "0b1s", "0o7s", "1_0s", "1µ2m", "5µ1m", "7µ1m", "1µm", "µm", "1µ1µ1m", "3µ4ms", "1e3s", "+5m"} {
 		c08Parse(o, w, "witness")
 	}
 	n := 6000
@@ -265,6 +299,9 @@ func propC08(o *out, r *rng, thorough bool) {
 			}
 			if m < 0 {
 				m = -m
+			}
+			if r.chance(1, 10) {
+				b.WriteString(strings.Repeat("0", 1+r.intn(3)))
 			}
 			fmt.Fprintf(&b, "%d%s", m, u.name)
 		}
